@@ -143,7 +143,8 @@ def run(tier):
         d["want"] = qgen.written(st)
         d["want"]["qcolumns"] = [list(x) for x in d["want"]["qcolumns"]]
         d["shape"] = name
-        ref.append((st, 0, d))
+        d["nodump"] = True      # the canonical dumper does not share sub-trees: exponential on the DAG the parser builds
+        ref.append((st, 1, d))
     decoys = []
     for sql, kw in KEYWORD_DECOYS:
         decoys.append({"sql": sql, "shape": "niladic_keyword:" + kw,
@@ -282,8 +283,8 @@ def run(tier):
                       "plus corpus + sqlgen statements for the model correspondence")
     rp.cov.update(stats)
     rp.cov["node_kinds_and_edges_in_sample"] = len(kinds)
-    rp.cov["cost_shapes"] = [{"shape": n, "max_ms": round(r["max_ns"] / 1e6, 3), "nodes": r["nodes"]}
-                             for (n, _), r in zip(cost, res[n_ref_in - len(cost):n_ref_in])]
+    rp.cov["cost_shapes"] = [{"shape": n, "max_ms": round(r["max_ns"] / 1e6, 3), "sql_bytes": len(d["sql"])}
+                             for (n, _), r, (_, _, d) in zip(cost, res[n_ref_in - len(cost):n_ref_in], ref[n_ref_in - len(cost):])]
     rp.cov["samples"] = [{"sql": d["sql"][:160], "want": d["want"], "got_tables": r["tables"]} for (st, li, d), r in list(zip(ref, res))[:3]]
     rp.assumptions = ["the reflective dump (harness/qast.go) is a faithful image of the parsed tree (exported fields)",
                       "Children() is field-wise uniform (C14 correspondence)",
